@@ -98,6 +98,22 @@ CHECKS.update({
         "DESIGN.md §2 C11",
     ),
 })
+CHECKS.update({
+    "C16": (
+        "exploration",
+        "Hypothesis generated windows/sizes/chunk sizes/seeds/attribute samples/usage histories; invariant oracle (count, footprint, joint rows), differential used-vs-fresh generator, chi-square uniformity test",
+        "Generated-input search over windows incl. poles, N vs chunk size, seeds, attribute arrays and histories of earlier uses of the generator object; oracle checks exact count, footprint, joint attribute rows, equality with a fresh generator of the same seed, and a deterministic chi-square / mean test of area uniformity.",
+        "statistical oracle with false-alarm probability < 1e-7 per run; stream allowed to depend on chunk size",
+        "DESIGN.md §2 C16",
+    ),
+    "C18": (
+        "exploration",
+        "Hypothesis generated lengths/chunk sizes/sources/patch modes with recording sources; invariant over the request log (consecutive, non-overlapping, bounded, exactly-once per pass)",
+        "Generated-input search with instrumented sources (recording data frame, h5py / parquet proxies bound into yaw.catalog.readers, recording generator) -- the request history is the observed trace and the oracle is an invariant over it.",
+        "FITS observed at emitted-chunk level only; Parquet I/O unit is the row group",
+        "DESIGN.md §2 C18",
+    ),
+})
 NOT_YET = {}
 
 props = [json.loads(l) for l in (VERIF / "properties.jsonl").read_text().splitlines() if l.strip()]
